@@ -291,6 +291,44 @@ def run(ctx):
                               'raise_with_cause %s: specification cause=%s, code %s' % (c, ref['cause'], got))
     ctx.cov['evaluations'] += m
     ctx.stage('tables-replay', cases=m)
+    # exceptions that drag a long history along (a retry loop that chained 3000 failures): the context manager treats
+    # them like any other
+    def chain(n, label):
+        e = Plain('%s 0' % label)
+        for i in range(1, n):
+            nxt = Plain('%s %d' % (label, i))
+            nxt.__cause__ = e
+            e = nxt
+        return e
+    lc = 0
+    for depth in (10, 3000):
+        for which in ('original', 'new'):
+            for flag in (True, False):
+                orig = chain(depth, 'orig') if which == 'original' else Plain('orig')
+                new = chain(depth, 'new') if which == 'new' else None
+                logger = FakeLogger()
+                out = None
+                try:
+                    try:
+                        raise orig
+                    except Plain:
+                        with excutils.save_and_reraise_exception(reraise=flag, logger=logger):
+                            if new is not None:
+                                raise new
+                except BaseException as e:      # noqa
+                    out = e
+                want = new if new is not None else (orig if flag else None)
+                want_logged = 1 if (new is not None and flag) else 0   # 'being dropped' is only said of an exception that would have been re-raised
+                lc += 1
+                if out is not want or logger.errors != want_logged:
+                    ctx.violation({'kind': 'long-cause-chain', 'which': which, 'reraise': flag, 'got': type(out).__name__},
+                                  {'chain_links': depth, 'chained_exception': which, 'reraise': flag,
+                                   'observed': repr(out)[:200], 'logged': logger.errors, 'expected_logged': want_logged},
+                                  'save_and_reraise_exception(reraise=%s) with a %d-link __cause__ chain on the %s exception: '
+                                  '%s propagates (logged %d), specification: %s (logged %d)' % (
+                                      flag, depth, which, repr(out)[:120], logger.errors, repr(want)[:60], want_logged))
+    ctx.cov['evaluations'] += lc
+    ctx.stage('long-cause-chains', cases=lc)
     # binding self-test: "raise self.value" without restoring the saved traceback must be exposed
     saved = excutils.save_and_reraise_exception.force_reraise
 
@@ -410,6 +448,14 @@ def run_remove(fileutils, excutils, c, workdir):
         removed['v'] = True
         if c['remove'] in ('raises', 'raises_enoent'):
             raise rm_err
+        if c['remove'] == 'ok_nested':
+            inner = Plain('failure while tidying up, handled by the remover itself')
+            try:
+                with fileutils.remove_path_on_error(p + '.aux', remove=lambda q: None):
+                    raise inner
+            except Plain as e:
+                if e is not inner:
+                    raise MachineryError('nested remove_path_on_error propagated %r' % (e,))
         if os.path.islink(p) or os.path.isfile(p):
             os.unlink(p)
     logger = FakeLogger()
